@@ -188,6 +188,11 @@ func runScenario(sc *Scenario) {
 					}
 				}))
 			}
+			if cs.CtxUs > 0 {
+				var c3 context.CancelFunc
+				ctx, c3 = context.WithTimeout(ctx, time.Duration(cs.CtxUs)*time.Microsecond)
+				defer c3()
+			}
 			cancels[c].Store(cancel)
 			addr := srvs[cs.Pool%npools].addr
 			timeout := time.Duration(cs.TimeoutMs) * time.Millisecond
@@ -221,7 +226,7 @@ func runScenario(sc *Scenario) {
 			if cs.Icpt {
 				ic = 1
 			}
-			evs(int64(sc.ID), "SUB\t%d\t%d\t%d\t%s\t%d\t%s\t%d\t%d\t%d\tg=%d:%d:%d:%d", c, cs.Host, cs.Pri, kindNames[cs.Kind%5], cs.TimeoutMs, mode, cs.Pool%npools, exp, willCancel, rcOn, cs.Group, cs.Gate, ic)
+			evs(int64(sc.ID), "SUB\t%d\t%d\t%d\t%s\t%d\t%s\t%d\t%d\t%d\tg=%d:%d:%d:%d\tdl=%d", c, cs.Host, cs.Pri, kindNames[cs.Kind%5], cs.TimeoutMs, mode, cs.Pool%npools, exp, willCancel, rcOn, cs.Group, cs.Gate, ic, cs.CtxUs/1000)
 			st := time.Now()
 			var resp *tikvrpc.Response
 			var err error
